@@ -175,7 +175,7 @@ def r4(ctx: Ctx) -> None:
     cfl = get_flow(proj, ci)
     for e in effects_in(ci):
         g = cfl.cfg.guard_literals(cfl.stmt_of(e.node))
-        ok = e.kind == 'append' and any("'views_file:' not in" in t and tr for t, tr in g) and any('os.path.exists(settings_path)' in t and tr for t, tr in g)
+        ok = e.kind == 'append' and any("'views_file:' in" in t and not tr for t, tr in g) and any('os.path.exists(settings_path)' in t and tr for t, tr in g)
         ctx.check(ok, 'C20.R4', ci, f'settings:{e.kind}', 'settings.yaml only gains appended lines, once', f'{e.label} under {sorted(g)}', e.node)
     mc = cfl.calls('_migrate_csv_to_rules')
     for c in mc:
